@@ -49,6 +49,7 @@ type Exec struct {
 	callStack  []string
 	oblPrefix  string
 	wholeHavoc map[string]bool
+	noPrune     int
 	knownWidth  map[int]int
 	collectLocs *[]Loc
 	extra       map[*Cell]Val
@@ -183,7 +184,7 @@ func (e *Exec) run(fr *Frame, args []Val, st *State) (*State, []Val) {
 				continue
 			}
 			es := e.edgeState(fr, p, b, ps)
-			if es == nil || isFalse(es.reach) {
+			if es == nil || (isFalse(es.reach) && e.noPrune == 0) {
 				continue
 			}
 			ins = append(ins, es)
@@ -244,7 +245,7 @@ func (e *Exec) run(fr *Frame, args []Val, st *State) (*State, []Val) {
 			default:
 				e.instr(fr, cur, ins2)
 			}
-			if isFalse(cur.reach) {
+			if isFalse(cur.reach) && e.noPrune == 0 {
 				terminated = true
 			}
 			if terminated {
